@@ -33,3 +33,12 @@ func SimKVOf(d DB) KV {
 	}
 	return nil
 }
+
+// SimAfterCommit, when set, runs after every engine batch commit on the committing goroutine.
+var SimAfterCommit func(p *pebble.DB)
+
+func simAfterCommit(p *Pebble) {
+	if SimAfterCommit != nil && p != nil && p.db != nil {
+		SimAfterCommit(p.db)
+	}
+}
